@@ -1909,10 +1909,13 @@ EVIDENCE = {
         "the period row is judged for distribution_fn='lognormal' (the table shows NaN for 'normal')"]},
 }
 REQUIRED_PROBES = {
-    "C05": ["c05_rebuilt", "c05_garbage_twin"],
+    "C05": ["c05_rebuilt", "c05_garbage_twin", "history_continues_on_a_copy"],
+    "C08": ["caller_edits_returned_array", "caller_reuses_range_list", "caller_reuses_kwargs_dict", "same_range_update"],
     "C06": ["fdwra_refinement_judged", "fdwra_reached_max_iterations", "fdwra_twin_permute_windows"],
     "C11": ["c11_unequal_counts", "c11_single_azimuth", "c11_rebuilt"],
-    "C12": ["roundtrip_judged_trad", "roundtrip_judged_az", "roundtrip_judged_diff", "shadow_compared"],
+    "C12": ["roundtrip_judged_trad", "roundtrip_judged_az", "roundtrip_judged_diff", "shadow_compared",
+            "caller_edits_nested_option_in_place", "members_out_of_step_at_write"],
     "C13": ["c13_attached_trad_history", "c13_attached_az_history", "c13_kept_some", "c13_twin_conj", "c13_twin_alone"],
-    "C20": ["plot_judged_single_panel", "plot_judged_pre_post", "plot_judged_summary_table"],
+    "C20": ["plot_judged_single_panel", "plot_judged_pre_post", "plot_judged_summary_table",
+            "one_array_assigned_to_both_masks"],
 }
